@@ -180,6 +180,10 @@ class Crate:
             e['VV'] = self.vv
         return e
 
+    def fingerprint_no_extra(self):
+        f = self.fingerprint(False)
+        return f[:6] + f[7:]
+
     def fingerprint(self, with_out_dir):
         """every input the property names; --cfg as a multiset, -L order ignored"""
         return (tuple(sorted(self.files.items())), tuple(sorted((k, v) for k, v in self.env.items() if k.startswith('CARGO_'))),
@@ -297,6 +301,7 @@ def run_history(sccache, rustc, rng, idx, steps, scratch):
         seen_full = set()
         seen_nodir = set()
         stored_from = {}
+        stored_extra = {}
         for label in ['init'] + steps:
             if label != 'init':
                 STEPS[label](crate)
@@ -344,6 +349,15 @@ def run_history(sccache, rustc, rng, idx, steps, scratch):
                 seen_nodir.add(fp_nodir)
                 if observed == 'miss':
                     stored_from[fp_nodir] = crate.out_dir
+            # finding C05-S22: an earlier stored compile with the same inputs whose arguments differ from these but
+            # concatenate to the same string (all of `extra` is hashed)
+            fne = crate.fingerprint_no_extra()
+            s22_with = None
+            for ex in stored_extra.get(fne, []):
+                if list(ex) != list(crate.extra) and ''.join(ex) == ''.join(crate.extra):
+                    s22_with = list(ex)
+            if rc_d == 0 and observed == 'miss':
+                stored_extra.setdefault(fne, []).append(tuple(crate.extra))
             diff = sorted(n for n in set(files_d) | set(files_s) if files_d.get(n) != files_s.get(n))
             res['steps'].append({
                 'label': label, 'argv': argv, 'vv': crate.vv, 'env': {k: v for k, v in env.items() if k not in srv.base_env},
@@ -353,7 +367,7 @@ def run_history(sccache, rustc, rng, idx, steps, scratch):
                 'stderr_sccache': err_s.decode('utf-8', 'replace')[-400:],
                 'depinfo': depinfo, 'direct_dep_file': files_d.get(crate.name + '.d'),
                 'files': dict(crate.files), 'dep_version': crate.dep_version, 'dep_bytes': dep_bytes[crate.dep_version],
-                'sources': crate.source_files(), 'compiled_ok': rc_d == 0, 'out_dir': crate.out_dir, 'cwd': crate.cwd, 'entry_out_dir': stored_from.get(fp_nodir),
+                'sources': crate.source_files(), 'compiled_ok': rc_d == 0, 'out_dir': crate.out_dir, 'cwd': crate.cwd, 'entry_out_dir': stored_from.get(fp_nodir), 's22_with': s22_with,
             })
         return res
     except Exception as e:  # report, never hide
